@@ -47,6 +47,7 @@ type Cfg struct {
 	CompatNames            bool // with NameStress: also names that need the compatible_names option (NewX, XArgs, XResult)
 	WideStructs            bool // some structs have 9-36 fields (more than one bookkeeping word of required-field bits)
 	ArgDefaults            bool // function arguments may carry default values (the grammar allows it)
+	FuncNamePool           bool // method names from a small pool: the same name in several services, names that contain each other
 	EnumAsInt              bool // i32 / i64 values may be written as enum members (the member's number)
 	SameConstNames         bool // constants of different files (in different Go packages) may share a name
 	AliasNS                bool // go namespaces that end in the same element in several files, or in the name of a library package (import aliases)
@@ -168,6 +169,23 @@ func (g *gen) reuseGlobal(forConst bool) string {
 		return ""
 	}
 	return rapid.SampledFrom(cands).Draw(g.t, "reused")
+}
+
+// relatedFuncs are method names that repeat across services and contain each
+// other (FuncNamePool): what a method filter has to tell apart.
+var relatedFuncs = []string{"Get", "GetAll", "get", "Put", "PutAll", "List", "ListAll", "call", "callback", "send", "sendAll", "func1", "func10", "Delete", "ping"}
+
+func (g *gen) funcName(used map[string]bool) string {
+	if g.cfg.FuncNamePool && !g.cfg.NameStress && g.p(1, 2, "relatedfn") {
+		for tries := 0; tries < 3; tries++ {
+			n := rapid.SampledFrom(relatedFuncs).Draw(g.t, "relatedfn_name")
+			if !used[n] {
+				used[n] = true
+				return n
+			}
+		}
+	}
+	return g.stressName(stressFuncs, used, "m")
 }
 
 func (g *gen) globalName(pool []string, prefix string) string {
@@ -1059,7 +1077,7 @@ func (g *gen) genService() {
 		}
 	}
 	for i := 0; i < n; i++ {
-		f := &Func{Name: g.stressName(stressFuncs, usedFuncs, "m")}
+		f := &Func{Name: g.funcName(usedFuncs)}
 		if !g.cfg.InheritedCaseCollision && baseKeys[normKey(f.Name)] {
 			// e.g. `call` in a service whose base has `Call`: both become the Go method Call (known finding)
 			f.Name = g.name("m")
